@@ -6,7 +6,7 @@ Import ListNotations.
 From GMS Require Import Sys.Privs Sys.Serialize Sys.SerializeProofs.
 Open Scope N_scope.
 
-(* load (serialize s) = s is FALSE of the code as it is ... *)
+(* load (serialize s) = s is FALSE of the code as it is (witness: an account with a privilege on a database named "Db") ... *)
 Theorem C41_load_serialize_id_refuted : exists m, reload m <> m.
 Proof. exact reload_identity_refuted. Qed.
 Print Assumptions C41_load_serialize_id_refuted.
@@ -23,11 +23,6 @@ Theorem C41_table_privilege_survives_refuted :
 Proof. exact reload_preserves_table_refuted. Qed.
 Print Assumptions C41_table_privilege_survives_refuted.
 
-(* ... and WITH ADMIN OPTION never survives (LoadRoleEdge does not read it) *)
-Theorem C41_admin_option_lost : forall m, Forall (fun e => e_admin e = false) (m_edges (reload m)).
-Proof. exact reload_loses_admin_option. Qed.
-Print Assumptions C41_admin_option_lost.
-
 (* what does hold, for every state: global privileges, account fields ... *)
 Theorem C41_global_privileges_survive : forall ps p, e_has_g (load_ps (ser_ps ps)) p = e_has_g ps p.
 Proof. exact reload_preserves_global. Qed.
@@ -40,11 +35,10 @@ Theorem C41_account_fields_survive :
 Proof. exact reload_preserves_account_fields. Qed.
 Print Assumptions C41_account_fields_survive.
 
-(* ... role edges without the admin option ... *)
-Theorem C41_role_edges_survive_guarded :
-  forall m, Forall (fun e => e_admin e = false) (m_edges m) -> m_edges (reload m) = m_edges m.
-Proof. exact reload_preserves_edges_guarded. Qed.
-Print Assumptions C41_role_edges_survive_guarded.
+(* ... role edges, WITH ADMIN OPTION included (LoadRoleEdge reads the flag since e81e089bb) ... *)
+Theorem C41_role_edges_survive : forall m, m_edges (reload m) = m_edges m.
+Proof. exact reload_preserves_edges. Qed.
+Print Assumptions C41_role_edges_survive.
 
 (* ... and database-level privileges of every well-formed set whose object names are lower case *)
 Theorem C41_database_privileges_survive_guarded_partial :
@@ -53,6 +47,11 @@ Proof. exact reload_preserves_database_guarded. Qed.
 Print Assumptions C41_database_privileges_survive_guarded_partial.
 (* missing: the same statement for e_has_t (table level; the map-rebuilding lemma rebuild_filtered applies once more
    inside each database entry) and the lifting to SHOW GRANTS text / allow-deny of whole accounts *)
+
+Example C41_nonvacuous_edges :
+  let m := mkM [] [mkE [37] [114] [37] [117] true; mkE [37] [114] [37] [118] false] in
+  m_edges (reload m) = m_edges m /\ map e_admin (m_edges (reload m)) = [true; false].
+Proof. vm_compute. auto. Qed.
 
 Example C41_nonvacuous :
   let ps := mkPS [0] [([100;98], mkDB [100;98] [1;2] [([116], mkT [116] [3])])] in
